@@ -64,7 +64,9 @@ class Sizing(Stream):
         return out
 
     def corpus(self):
-        return [[0, 0, 0], [1, 4, 90], [9, 20, 110], [1, 1, 1], [2, 256, 1000], [65, 1, 1]]
+        # the repository's own two test requests, corner cells, and the requests on which catalogue-order mutants went wrong
+        return [[0, 0, 0], [1, 4, 90], [9, 20, 110], [1, 1, 1], [2, 256, 1000], [65, 1, 1],
+                [0, 0, 50], [1, 2, 50], [1, 4, 50], [1, 4, 0], [4, 8, 0]]
 
     def observe(self, case):
         from fim.slivers.instance_catalog import InstanceCatalog
@@ -189,7 +191,7 @@ class PySort(Stream):
             'non-trivial = length >= 64 (merging happens)')
 
     def gen(self, rng, tier):
-        n_cases = 150 if tier == 'quick' else 3000
+        n_cases = 150 if tier == 'quick' else 2000
         big = 700 if tier == 'quick' else 2000
         out = []
         for _ in range(n_cases):
